@@ -360,6 +360,11 @@ def mapAttr (r : AttrRule) (m : Mapper) (q : QN) : PName :=
         | none => .braced q.ns l
     | n => n
 
+/-- `map_attributes` under the name switches: both rules map through `map_qname`, which returns the name
+    unchanged / its local part when namespaces are not in use (the repaired rule is guarded by `_use_namespaces`). -/
+def mapAttrCfg (c : NameCfg) (r : AttrRule) (m : Mapper) (q : QN) : PName :=
+  if c.useNs then mapAttr r m q else mapQNameCfg c m q
+
 /-! ### the validators' call pattern while decoding a document -/
 
 /-- An element: identifier, expanded tag, attribute names, its own xmlns declarations, children. -/
